@@ -186,11 +186,27 @@ Proof.
   destruct r; cbn; try assumption; now apply set_meta_inv.
 Qed.
 
+Lemma commit_core_inv : forall s cl name uid, Inv s -> Inv (fst (fst (commit_core H cf s cl name uid))).
+Proof.
+  intros s cluster name uid HI. unfold commit_core.
+  destruct (valid name); cbn; [|assumption].
+  destruct (alookup uid (ups s)) as [f|]; cbn; [|assumption].
+  set (s1 := set_ups s (aremove uid (ups s))).
+  assert (HI1 : Inv s1) by now apply Inv_set_ups.
+  pose proof (move_in_inv s1 name f HI1) as Hm.
+  destruct (move_in H cf s1 name f) as [s2 r]. cbn in Hm. destruct r.
+  - destruct cluster.
+    + pose proof (write_back_inv s2 name Hm) as Hw. destruct (write_back cf s2 name). now cbn in *.
+    + pose proof (gen_meta_inv s2 name (c_genpl cf) Hm) as Hw. destruct (gen_meta s2 name (c_genpl cf)). now cbn in *.
+  - pose proof (on_conflict_inv cluster s1 name HI1) as Hc. destruct (on_conflict cf cluster s1 name). now cbn in *.
+  - now cbn.
+Qed.
+
 Hypothesis Hmv : c_memverify cf = true.
 
-Theorem step_inv : forall s o, Inv s -> Inv (fst (step H cf s o)).
+Theorem step_inv : forall s o, is_raced o = false -> Inv s -> Inv (fst (step H cf s o)).
 Proof.
-  intros s o HI. destruct o; cbn [step].
+  intros s o Hrace HI. destruct o; cbn [step]; try discriminate Hrace.
   - (* UStart *)
     destruct (valid name); cbn; [|assumption].
     destruct (exists_blob s name); [now apply on_conflict_inv|]. cbn. now apply Inv_set_ups.
@@ -199,18 +215,7 @@ Proof.
     destruct (exists_blob s name); [now apply on_conflict_inv|].
     destruct (alookup uid (ups s)); cbn; [|assumption].
     destruct (stop <? start); cbn; [assumption|now apply Inv_set_ups].
-  - (* UCommit *)
-    destruct (valid name); cbn; [|assumption].
-    destruct (alookup uid (ups s)) as [f|]; cbn; [|assumption].
-    set (s1 := set_ups s (aremove uid (ups s))).
-    assert (HI1 : Inv s1) by now apply Inv_set_ups.
-    pose proof (move_in_inv s1 name f HI1) as Hm.
-    destruct (move_in H cf s1 name f) as [s2 r]. cbn in Hm. destruct r.
-    + destruct cluster.
-      * pose proof (write_back_inv s2 name Hm) as Hw. destruct (write_back cf s2 name). now cbn in *.
-      * pose proof (gen_meta_inv s2 name (c_genpl cf) Hm) as Hw. destruct (gen_meta s2 name (c_genpl cf)). now cbn in *.
-    + now apply on_conflict_inv.
-    + now cbn.
+  - (* UCommit *) now apply commit_core_inv.
   - (* Create *)
     destruct (s_err w); cbn; [assumption|].
     pose proof (move_in_inv s name (sdata w) HI) as Hm.
@@ -257,8 +262,12 @@ Proof.
     pose proof (gen_meta_inv s name pl HI) as Hw. destruct (gen_meta s name pl). now cbn in *.
 Qed.
 
-Lemma exec_inv : forall ops s, Inv s -> Inv (exec H cf s ops).
-Proof. induction ops as [|o t IH]; intros s HI; cbn; [assumption|]. apply IH. now apply step_inv. Qed.
+Lemma exec_inv : forall ops s, race_free ops = true -> Inv s -> Inv (exec H cf s ops).
+Proof.
+  induction ops as [|o t IH]; intros s Hrf HI; cbn; [assumption|].
+  cbn in Hrf. apply andb_true_iff in Hrf as [Ho Ht]. apply negb_true_iff in Ho.
+  apply IH; [assumption|]. now apply step_inv.
+Qed.
 
 Lemma run_exec : forall names ops s, fst (run H cf names s ops) = exec H cf s ops.
 Proof.
@@ -268,8 +277,9 @@ Proof.
 Qed.
 
 (* clause 1: whatever is readable after any history hashes to its name *)
-Theorem readable_hashes : forall ops name, view_good name (view_of (exec H cf init ops) name).
-Proof. intros. apply Inv_view_good. apply exec_inv. apply Inv_init. Qed.
+Theorem readable_hashes : forall ops name, race_free ops = true ->
+  view_good name (view_of (exec H cf init ops) name).
+Proof. intros. apply Inv_view_good. apply exec_inv; [assumption|apply Inv_init]. Qed.
 
 (* ------------------------------------------------------------------ clause 2 *)
 
@@ -291,7 +301,7 @@ Theorem failed_write_invisible : forall s o, bad_write H s o = true ->
 Proof.
   intros s o Hb. destruct o; cbn in Hb; try discriminate.
   - (* UCommit *)
-    cbn [step]. destruct (alookup uid (ups s)) as [f|] eqn:Eu; [|discriminate].
+    cbn [step]. unfold commit_core. destruct (alookup uid (ups s)) as [f|] eqn:Eu; [|discriminate].
     destruct (valid name) eqn:Ev; cbn; [|split; [discriminate|reflexivity]].
     cbn in Hb.
     unfold move_in, verify_ok. rewrite Ev, Hskip. cbn.
@@ -361,13 +371,14 @@ Proof.
   rewrite Hv, view_eqb_refl. now apply IH.
 Qed.
 
-Lemma check_from_sound : forall names ops s, Inv s ->
+Lemma check_from_sound : forall names ops s, race_free ops = true -> Inv s ->
   check_from H cf names s (views names s) (views names s) ops (snd (run H cf names s ops)) = true.
 Proof.
-  induction ops as [|o t IH]; intros s HI; cbn; [reflexivity|].
-  pose proof (step_inv s o HI) as HI1.
+  induction ops as [|o t IH]; intros s Hrf HI; cbn; [reflexivity|].
+  cbn in Hrf. apply andb_true_iff in Hrf as [Ho Hrt]. apply negb_true_iff in Ho.
+  pose proof (step_inv s o Ho HI) as HI1.
   destruct (step H cf s o) as [s1 r] eqn:Es. cbn in HI1.
-  specialize (IH s1 HI1). destruct (run H cf names s1 t) as [s2 rs] eqn:Er. cbn in *.
+  specialize (IH s1 Hrt HI1). destruct (run H cf names s1 t) as [s2 rs] eqn:Er. cbn in *.
   rewrite views_ok_of_good by assumption. cbn.
   rewrite IH, andb_true_r.
   destruct (bad_write H s o) eqn:Eb; [|reflexivity].
@@ -375,9 +386,9 @@ Proof.
   rewrite views_eqb_same by assumption. destruct r; cbn; try reflexivity. contradiction.
 Qed.
 
-Theorem check_sound : forall names ops,
+Theorem check_sound : forall names ops, race_free ops = true ->
   C01_check H cf names ops (snd (run H cf names init ops)) = true.
-Proof. intros. unfold C01_check. rewrite Hskip. cbn. apply check_from_sound. apply Inv_init. Qed.
+Proof. intros. unfold C01_check. rewrite Hskip. cbn. apply check_from_sound; [assumption|apply Inv_init]. Qed.
 
 End Proofs.
 
